@@ -11,7 +11,7 @@ use crate::chain::{act_from_json, act_json, ChainCfg, ChainSt, HopAct, Loc};
 use crate::driver::ReqCfg;
 use crate::engine::{explore, replay_trace, validate_traces, Limits, Report, Sys, Tier, Violation};
 
-pub const RULE_C13: &str = "original requests {GET, POST with Content-Length: 3, POST chunked, PUT, DELETE, HEAD, GET with two cookie and two authorization fields} on {http://a.test/p, https://a.test/p, http://a.test:8080/p}, each carrying authorization: S3CRET, cookie: k=ORIG, x-keep: 1; redirect-chain graph to depth 4 (thorough: depth 5 and 24 Locations) (state = hop + full fingerprint of the real Prepare flow + reference URI): at every hop every status {301,302,303,307,308} x every Location of a 16-entry pool (absolute http/https for hosts a.test/b.test/A.TEST with ports none/80/443/8080, scheme-relative, path-absolute, relative, ../, query-only) x policy {Never, SameHost} chosen independently per hop - all chains of length 1..4 incl. leave-and-return and scheme up/downgrades; in every state the head of the redirected request is written under two buffer schedules and read back. distinct = distinct chain states (flow fingerprint x reference URI x hop)";
+pub const RULE_C13: &str = "original requests {GET, POST with Content-Length: 3, POST chunked, PUT, DELETE, HEAD, GET with two cookie and two authorization fields, POST with Expect: 100-continue answered by the redirect itself} on {http://a.test/p, https://a.test/p, http://a.test:8080/p}, each carrying authorization: S3CRET, cookie: k=ORIG, x-keep: 1; redirect-chain graph to depth 4 (thorough: depth 5 and 24 Locations) (state = hop + full fingerprint of the real Prepare flow + reference URI): at every hop every status {301,302,303,307,308} x every Location of a 16-entry pool (absolute http/https for hosts a.test/b.test/A.TEST with ports none/80/443/8080, scheme-relative, path-absolute, relative, ../, query-only) x policy {Never, SameHost} chosen independently per hop - all chains of length 1..4 incl. leave-and-return and scheme up/downgrades; in every state the head of the redirected request is written under two buffer schedules and read back. distinct = distinct chain states (flow fingerprint x reference URI x hop)";
 pub const RULE_C14: &str = "GET requests on bases {http://a.test/p, http://a.test/d/e/f?x=1, https://a.test:8443/, http://a.test} ; redirect-chain graph to depth 3 (thorough 4): at every hop statuses {302,307} x a ~50-entry Location pool (absolute http/https with/without/default ports, scheme-relative, path-absolute, ./ ../ ../../.. relative, trailing slash, query-only, empty, each also with #fragment, 2-3 Location fields where the last wins) plus malformed values (missing, non-UTF-8, empty host, //, port 99999, unterminated IPv6 literal) x both policies; new flow's URI compared on components with an RFC 3986 section 5.2 reference that tracks its own current URI, and the request line / Host header of every state's head checked. distinct = distinct chain states";
 
 fn c13_cfgs(tier: Tier) -> Vec<Arc<ChainCfg>> {
@@ -54,11 +54,14 @@ fn c13_cfgs(tier: Tier) -> Vec<Arc<ChainCfg>> {
                 r = r.orig("transfer-encoding", "chunked");
                 body = b"abc".to_vec();
             }
-            out.push(Arc::new(ChainCfg { prop: "C13", req: r, body, statuses: vec![301, 302, 303, 307, 308], locs: locs.clone(), max_hops: depth, check_credentials: true, check_target: false }));
+            out.push(Arc::new(ChainCfg { prop: "C13", req: r, body, statuses: vec![301, 302, 303, 307, 308], locs: locs.clone(), max_hops: depth, check_credentials: true, check_target: false, refuse_expect: false }));
         }
+        // an upload announced with Expect: 100-continue which the server answers with the redirect itself
+        let r = ReqCfg::new("POST", "1.1", uri).orig("authorization", "S3CRET").orig("cookie", "k=ORIG").orig("x-keep", "1").orig("content-length", "3").orig("expect", "100-continue");
+        out.push(Arc::new(ChainCfg { prop: "C13", req: r, body: b"abc".to_vec(), statuses: vec![301, 303, 307], locs: locs.clone(), max_hops: 2, check_credentials: true, check_target: false, refuse_expect: true }));
         // repeated credential fields in the original request
         let r = ReqCfg::new("GET", "1.1", uri).orig("cookie", "a=ORIG1").orig("authorization", "S3CRET").orig("x-keep", "1").orig("cookie", "b=ORIG2").orig("authorization", "S3CRET-2");
-        out.push(Arc::new(ChainCfg { prop: "C13", req: r, body: vec![], statuses: vec![302, 307], locs: locs.clone(), max_hops: 3, check_credentials: true, check_target: false }));
+        out.push(Arc::new(ChainCfg { prop: "C13", req: r, body: vec![], statuses: vec![302, 307], locs: locs.clone(), max_hops: 3, check_credentials: true, check_target: false, refuse_expect: false }));
     }
     out
 }
@@ -94,24 +97,38 @@ fn c14_cfgs(tier: Tier) -> Vec<Arc<ChainCfg>> {
         locs.push(Loc::one(&format!("{}#frag", l)));
     }
     // several Location fields: the last wins
-    locs.push(Loc { fields: vec![b"http://first.test/1".to_vec(), b"/last".to_vec()] });
-    locs.push(Loc { fields: vec![b"/first".to_vec(), b"http://mid.test/".to_vec(), b"last/x".to_vec()] });
+    locs.push(Loc::many(vec![b"http://first.test/1".to_vec(), b"/last".to_vec()]));
+    locs.push(Loc::many(vec![b"/first".to_vec(), b"http://mid.test/".to_vec(), b"last/x".to_vec()]));
+    // an empty-valued field between the Location fields (the last Location still wins)
+    locs.push(Loc { fields: vec![b"/first".to_vec(), b"http://b.test:8080/second?x=1".to_vec()], empty_field_before_last: true });
+    locs.push(Loc { fields: vec![b"/only".to_vec()], empty_field_before_last: true });
     // malformed / unusable
-    locs.push(Loc { fields: vec![] });
-    locs.push(Loc { fields: vec![b"/ok".to_vec(), vec![b'/', 0xff, 0xfe]] });
+    locs.push(Loc::many(vec![]));
+    // a long non-textual value (its lossy rendering is longer than 1 KiB)
+    {
+        let mut v = vec![b'/'; 1];
+        v.extend(std::iter::repeat(b'a').take(1021));
+        v.extend_from_slice(&[0xff, 0xfe, b'/', 0xe9]);
+        locs.push(Loc::many(vec![v]));
+        let mut w = b"/fr".to_vec();
+        for _ in 0..300 {
+            w.extend_from_slice(b"/caf\xe9");
+        }
+        locs.push(Loc::many(vec![w]));
+    }
+    locs.push(Loc::many(vec![b"/ok".to_vec(), vec![b'/', 0xff, 0xfe]]));
     for l in ["http://", "//", "http://b.test:99999/", "http://[::1", "http://b.test:x/"] {
         locs.push(Loc::one(l));
     }
     let mut out = Vec::new();
     for uri in ["http://a.test/p", "http://a.test/d/e/f?x=1", "https://a.test:8443/", "http://a.test"] {
         let r = ReqCfg::new("GET", "1.1", uri).orig("x-keep", "1");
-        out.push(Arc::new(ChainCfg { prop: "C14", req: r, body: vec![], statuses: vec![302, 307], locs: locs.clone(), max_hops: if tier.thorough() { 4 } else { 3 }, check_credentials: false, check_target: true }));
+        out.push(Arc::new(ChainCfg { prop: "C14", req: r, body: vec![], statuses: vec![302, 307], locs: locs.clone(), max_hops: if tier.thorough() { 4 } else { 3 }, check_credentials: false, check_target: true, refuse_expect: false }));
     }
     out
 }
 
 fn run_chains(cfgs: Vec<Arc<ChainCfg>>, max_states: u64) -> Report {
-    crate::engine::WD_LIMIT_S.store(600, std::sync::atomic::Ordering::Relaxed);
     let parts: Vec<Report> = cfgs
         .par_iter()
         .enumerate()
